@@ -25,7 +25,7 @@ _ATLOG = (" The atomic-operation log is part of the comparison: under hook H3 th
 _INJ = (" Behavioural tie of the interleaving model (preemption injection): under hook H4 the harness preempts one call of "
         "the real crate immediately before or after any of its atomic operations (at one or two such points) and runs complete calls of other agents there "
         "(exactly the schedule 'A preempted after k atomic operations, B runs, A resumes', deterministically, for every "
-        "prefix history up to a depth, every call, every k, every injected call, followed by seeded random scenarios); the recorded atomic operations, "
+        "prefix history up to a depth, every call, every k, every injected call, followed by seeded random scenarios, and by a deterministic scheduler that runs each agent on its own thread, parks it after every atomic operation and enumerates every interleaving of a bounded number of calls and preemptions); the recorded atomic operations, "
         "attributed to their agents, are replayed in an acceptor of the atomic-granularity model "
         "(lean/ALock/Atomic/Accept.lean): each must be the step the agent's program counter allows and must have "
         "observed what the model says (value returned, CAS success), each return value must match the agent's final "
